@@ -933,6 +933,7 @@ walk_descents(cholmod_sparse *AtA_F,
 	pthread_t *threads;
 	pthread_attr_t thread_attr;
 	descent_trial *descent_trials;
+	cholmod_common *commons;
 				
 	nF = *nF_;
 	nH1 = *nH1_;
@@ -978,6 +979,14 @@ walk_descents(cholmod_sparse *AtA_F,
 	descent_trials = (descent_trial*)malloc(
 	    n_threads*sizeof(descent_trial));
 
+	/*
+	 * CHOLMOD keeps its status and allocation statistics in the
+	 * cholmod_common without any locking, so each worker thread gets
+	 * one of its own; c itself is never used concurrently.
+	 */
+	commons = (cholmod_common*)malloc(
+	    n_threads*sizeof(cholmod_common));
+
 	/* Set up thread attributes */
 	pthread_attr_init(&thread_attr);
 	pthread_attr_setdetachstate(&thread_attr, PTHREAD_CREATE_JOINABLE);
@@ -1008,6 +1017,12 @@ walk_descents(cholmod_sparse *AtA_F,
 		memcpy(&descent_trials[i], &descent_trials[0],
 		    sizeof(descent_trial));
 		descent_trials[i].id = i;
+	}
+	for (i = 0; i < n_threads; i++) {
+		cholmod_l_start(&commons[i]);
+		commons[i].print = c->print;
+		commons[i].error_handler = c->error_handler;
+		descent_trials[i].c = &commons[i];
 	}
 							
 	n_blocks = (int)ceil(n_alpha/((double)(n_threads)));
@@ -1134,7 +1149,8 @@ walk_descents(cholmod_sparse *AtA_F,
 			free(descent_trials[k].H1);
 		if (descent_trials[k].x_c)
 			cholmod_l_free_dense(
-			    &(descent_trials[k].x_c), c);
+			    &(descent_trials[k].x_c), descent_trials[k].c);
+		cholmod_l_finish(descent_trials[k].c);
 	}
 
 	/* Clean up pthreads-related detritus */
@@ -1142,6 +1158,7 @@ walk_descents(cholmod_sparse *AtA_F,
 	pthread_mutex_destroy(&mutex);
 	pthread_attr_destroy(&thread_attr);
 	free(descent_trials);
+	free(commons);
 	free(threads);
 	free(alpha);
 
